@@ -30,13 +30,14 @@ import threading
 import time
 
 from harness import lib_c14 as lib14
+from harness import lib_c14_hist as hist
 from harness import lib_c17 as lib
 from harness.core import InfraError, err_kind, jdump
 from harness.props import c17
 
 PID = 'C14'
 TITLE = 'Remote evaluation is observationally the same as local evaluation'
-LEAN_MODULES = ['MlModel.Properties.C14', 'MlModel.Witness.C14']
+LEAN_MODULES = ['MlModel.Properties.C14', 'MlModel.Properties.C14State', 'MlModel.Witness.C14']
 TRUSTED = [
     'the real DeepMind courier transport is absent: harness/fakecourier supplies the assumed contract (a call runs '
     'its handler at most once and completes with the handler\'s value, or fails with a status whose code is 4 for '
@@ -48,8 +49,9 @@ TRUSTED = [
     'part of the differential tie',
 ]
 ASSUMPTIONS = [
-    'WF of C14_eval: the locally returned value is not itself an Exception instance and a raised exception has no '
-    'attribute code == 4 (both are reproduced as known findings C14-F1 / C14-F2 with Lean witnesses)',
+    'WF of C14_eval: the locally returned value is not itself an Exception instance (reproduced as known finding C14-F1 '
+    'with a Lean witness); the former second condition (no attribute code == 4 on a raised exception, C14-F2) is repaired '
+    'in the code and dropped from the theorems',
     'arguments of handle calls are plain values (a RemoteObject passed as an argument would make the server call '
     'itself; not generated)',
     'messages of exceptions raised inside the C17 callable library are not modelled in Lean (kind only); the '
@@ -71,7 +73,13 @@ RULE = ('sequential cases (fake courier inline, virtual clock): 3-14 ops drawn f
         'passes the end of an iterator; distinct = distinct canonical case JSON.  span cases: 1-4 calls whose handlers block '
         'inside the evaluation, every start<finish interleaving, a shutdown request at a random position (model + oracle).  '
         'arr cases: a cache_result_ call with an ndarray / list / dict / ambiguous-== / tuple argument evaluated 2-6 times '
-        'through the client (same or re-traced expression), attr/index chains on it and on a remote handle (oracle only).')
+        'through the client (same or re-traced expression), attr/index chains on it and on a remote handle (oracle only).  '
+        'hist cases: 4-16 ops on 1-3 MUTABLE remote objects (Counter / Account / Store of harness/lib_c14_state.py): attribute, '
+        'property, item reads, calls that re-bind attributes or mutate a nested container, lazy_result_ calls giving a second '
+        'handle to the same object, live generators and tuple iterators through RemoteObject.__iter__ / RemoteIterator, whole-object '
+        'copies, bound methods, raising members, and (half of the cases) explicit cache_result_ / lazy_result_ flags on any link + '
+        'clear_cache; three passes: remote (client + server), the same lazy expressions by lazy_fns.maybe_make in process, ordinary '
+        'Python on ordinary objects (+ textbook LRU for cache_result links); model = Model/RemoteState.lean incl. cache_info.')
 
 HB = 100.0          # heartbeat threshold of the client (virtual seconds)
 KINDS = ['ValueError', 'TypeError', 'KeyError', 'IndexError', 'RuntimeError', 'AssertionError',
@@ -451,6 +459,13 @@ def gen_cases(ctx):
     yield gen_span_case(rng)
   for i in range(150 if ctx.quick else 2000):
     yield gen_arr_case(rng)
+  for name, ops, flags in hist.fixed_hist_ops():
+    for fn_max in ((128, 0, 1) if flags else (128,)):
+      yield {'kind': 'hist', 'fn_max': fn_max, 'ops': ops}
+  for i in range(700 if ctx.quick else 8000):
+    flags = i % 2 == 1
+    yield {'kind': 'hist', 'fn_max': rng.choice([128, 128, 0, 1, 2]) if flags else 128,
+           'ops': hist.gen_hist_ops(rng, rng.randrange(4, 17), flags=flags)}
   n_conc = 250 if ctx.quick else 3000
   for i in range(n_conc):
     yield {'kind': 'conc', 'fn_max': 128,
@@ -1182,7 +1197,44 @@ def oracle_arr(case, obs):
   return None
 
 
+def run_hist(case):
+  """A history on mutable remote objects: through the client, by maybe_make in process, on ordinary objects."""
+  E = _setup()
+  lf, cu = E['lf'], E['cu']
+  fn_cache = lf.LazyFn.result_.cache_info.__self__
+  saved = fn_cache.maxsize
+  out = {'remote': [], 'local': []}
+  try:
+    lf.clear_cache(); lf.clear_object()
+    fn_cache.maxsize = case['fn_max']
+    rem = Remote(case, 'inline')
+    try:
+      try:
+        out['hist'] = hist.renumber(hist.run_lazy(case['ops'], lf, cu, rem.client, c14_err))
+      except Exception as e:  # pylint: disable=broad-except
+        out['hist'] = [{'err': 'crash', 'msg': f'{type(e).__name__}: {e}'[:160]}]
+    finally:
+      rem.close()
+    lf.clear_cache(); lf.clear_object()
+    out['hist_local'] = hist.renumber(hist.run_lazy(case['ops'], lf, cu, None, c14_err))
+    out['hist_twin'] = hist.renumber(hist.run_twin(case['ops'], case['fn_max'], c14_err))
+    out['hist_flagged_from'] = next((i for i, op in enumerate(case['ops']) if not hist.plain_op(op)), None)
+  finally:
+    fn_cache.maxsize = saved
+    lf.clear_cache(); lf.clear_object()
+  return out
+
+
+def oracle_hist(case, obs):
+  """Remote evaluation = local evaluation of the same lazy expressions, and = the same history on local objects."""
+  ops = case['ops']
+  return (hist.first_difference(ops, obs['hist'], obs['hist_local'], 'the client', 'local evaluation (maybe_make)') or
+          hist.first_difference(ops, obs['hist'], obs['hist_twin'], 'the client', 'the same history on a local object'))
+
+
 def run_impl(case):
+  if case['kind'] == 'hist':
+    return run_hist(case)
   if case['kind'] == 'shared':
     return run_shared(case)
   if case['kind'] == 'span':
@@ -1250,6 +1302,8 @@ def run_impl(case):
 # ----------------------------------------------------------------------------- model
 
 def model_requests(case):
+  if case['kind'] == 'hist':
+    return [hist.model_request(case), hist.model_request(case, local=True)]
   if case['kind'] == 'span':
     return [dict(model='remote', fn_max=128, obj_max=1024, steps=case['steps'])]
   if case['kind'] == 'arr':
@@ -1264,6 +1318,8 @@ def model_requests(case):
 
 
 def model_obs(case, resps):
+  if case['kind'] == 'hist':
+    return {'hist': hist.renumber(resps[0]['obs']), 'hist_twin': hist.renumber(resps[1]['obs'])}
   if case['kind'] == 'span':
     return {'span': resps[0]['replies']}
   conc = case['kind'] == 'conc'
@@ -1288,6 +1344,8 @@ def _same_exc(a, b, lenient_msg):
 def compare(impl, model):
   if 'shared' in impl or 'arr' in impl:
     return None
+  if 'hist' in impl:
+    return _compare_hist(impl, model)
   if 'span' in impl:
     if impl.get('hung'):
       return 'a call in flight did not finish'
@@ -1342,10 +1400,27 @@ def compare(impl, model):
   return None
 
 
+def _compare_hist(impl, model):
+  ops = [{}] * len(impl['hist'])
+  d = hist.compare_model(ops, impl['hist'], model['hist'], 'client + server')
+  if d:
+    return d
+  # the model's `localStep` (ordinary Python in Lean) vs ordinary Python: only while no cache_result link was met
+  # (localStep ignores the flags; C14_state_history is about flag-free histories)
+  for i, (a, b) in enumerate(zip(impl['hist_twin'], model['hist_twin'])):
+    a = {k: v for k, v in a.items() if k not in ('msg', 'fn')}
+    b = {k: v for k, v in b.items() if k != 'fn'}
+    if impl.get('hist_flagged_from') is not None and i >= impl['hist_flagged_from']:
+      break
+    if a != b:
+      return f'step {i}: ordinary Python gives {jdump(a)[:200]}, the model of ordinary Python {jdump(b)[:200]}'
+  return None
+
+
 # ----------------------------------------------------------------------------- oracle
 
 F1 = 'C14-F1'    # a returned Exception instance is raised by the client
-F2 = 'C14-F2'    # an application exception with attribute code == 4 becomes TimeoutError
+F2 = 'C14-F2'    # (fixed) an application exception with attribute code == 4 became TimeoutError
 
 
 def _failures(case, obs):
@@ -1461,15 +1536,16 @@ def _failures(case, obs):
             yield f'{where}: after a shutdown request a failing call must answer TimeoutError, got {re_}'
             continue
         elif not _same_exc(re_, le, False):
-          if le.get('code') == 4:
-            yield f'{where}: [{F2}] local evaluation raises {le} (attribute code == 4), the client raised {re_}'
-            continue
+          # (an application exception with attribute code == 4 used to come back as TimeoutError: C14-F2, repaired
+          # in the code — a recurrence is a violation like any other)
           yield f'{where}: local evaluation raises {le}, the client raised {re_}'
           continue
 
 
 
 def oracle(case, obs):
+  if case['kind'] == 'hist':
+    return oracle_hist(case, obs)
   if case['kind'] == 'shared':
     return oracle_shared(case, obs)
   if case['kind'] == 'span':
@@ -1541,6 +1617,15 @@ def collect(case, obs):
   """Coverage is measured on the case and on the *reference* (local) pass, so that a change of the code under
   test cannot hide a branch from the generator-quality gate; results of the remote pass are histogrammed only."""
   _stat('kind', case['kind'])
+  if case['kind'] == 'hist':
+    for b in hist.branches(case['ops'], obs['hist_twin']):
+      _stat('branch', 'hist: ' + b)
+    for op in case['ops']:
+      _stat('hist op', op['op'] + ('' if hist.plain_op(op) else ' (cache_result)'))
+    _stat('hist length', len(case['ops']))
+    if oracle_hist(case, obs):
+      STATS['failed'] = {'1': 1}
+    return
   if case['kind'] == 'span':
     shut_at = next((k for k, st in enumerate(case['steps']) if st['s'] == 'shutdown'), None)
     for k, st in enumerate(case['steps']):
@@ -1619,6 +1704,9 @@ def collect(case, obs):
 
 def nontrivial(case, obs):
   collect(case, obs)
+  if case['kind'] == 'hist':
+    return any(b.startswith('re-read after mutation') or b.startswith('next after') or b.startswith('cached link')
+               for b in hist.branches(case['ops'], obs['hist_twin']))
   if case['kind'] == 'shared':
     return len(case['items']) >= 2
   if case['kind'] == 'span':
@@ -1647,6 +1735,7 @@ def extra(ctx):
           'tracing error', 'in flight across the shutdown request: fails',
           'in flight across the shutdown request: succeeds',
           'cached call with an array argument evaluated remotely twice']
+  need += ['hist: ' + b for b in hist.NEED_PLAIN + hist.NEED_FLAGS]
   missing = [b for b in need if not STATS.get('branch', {}).get(b)]
   for f in ('deadline', 'deadline+not-alive', 'deadline_after', 'app_error', 'die', 'dead'):
     if not STATS.get('fault', {}).get(f):
@@ -1661,14 +1750,20 @@ def extra(ctx):
 def finding(case, what):
   if f'[{F1}]' in what:
     return F1
-  if f'[{F2}]' in what:
-    return F2
   return None
 
 
 # ----------------------------------------------------------------------------- search helpers
 
 def neighbours(case, rng):
+  if case['kind'] == 'hist':
+    for i in range(len(case['ops'])):
+      c = hist.drop_op(case, i)
+      if c is not None and c['ops']:
+        yield c
+    for _ in range(300):
+      yield {'kind': 'hist', 'fn_max': 128, 'ops': hist.gen_hist_ops(rng, rng.randrange(4, 12))}
+    return
   if case['kind'] in ('shared', 'span', 'arr'):
     return
   for t in range(len(case['threads'])):
@@ -1712,6 +1807,8 @@ def _drop(case, t, i):
 
 
 def shrink(case, fails):
+  if case['kind'] == 'hist':
+    return hist.shrink(case, fails)
   if case['kind'] in ('shared', 'span'):
     return case
   if case['kind'] == 'arr':
